@@ -147,10 +147,12 @@ def main(argv):
     ctx = None
     try:
         mod = importlib.import_module(f'vsa.rules.{pid}')
-        facts = extract.ensure_facts()
+        # thorough: re-extract the facts from the compiler instead of trusting the cache, and load every crate of the
+        # workspace (the rule then sees callers and implementations in all crates, not only in its own units)
+        facts = extract.ensure_facts(force=(tier == 'thorough' and not os.environ.get('VSA_NO_FORCE')))
         units = getattr(mod, 'UNITS', None)
         if tier == 'thorough':
-            units = getattr(mod, 'UNITS_THOROUGH', units)
+            units = getattr(mod, 'UNITS_THOROUGH', None)
         prog = Program(facts, units)
         fx = None
         if getattr(mod, 'USES_FIXTURES', False):
